@@ -179,11 +179,23 @@ class World:
             "initial_balances": [{"address": a, "amount": str(BAL)} for a in ("attacker", "trader1", "by1")],
             "mint": None})
         self.decimals[self.rogue] = 6
+        reg_lookalikes = rng_.random() < 0.5
         for _, d in self.natives:
             dec = rng_.choice([0, 6, 6, 8, 18])
             self.decimals[d] = dec
             self.must(self.x_bank("owner", self.factory, [[d, "1"]]))
-            self.must(self.x("owner", self.factory, {"add_native_token_decimals": {"denom": d, "decimals": dec}}))
+            todo = [(d, dec)]
+            if d in self.lookalikes:
+                # the look-alike coin is a different coin: it may be registered too, with decimals of its own, before or
+                # after the real one; nothing about the real denom may change because of it
+                u = self.lookalikes[d]
+                self.must(self.x_bank("attacker", self.factory, [[u, "1"]]))
+                if reg_lookalikes:
+                    du = rng_.choice([x for x in (0, 6, 8, 9, 18) if x != dec])
+                    self.decimals[u] = du
+                    todo.insert(rng_.choice([0, 1, 1]), (u, du))
+            for dn, dc in todo:
+                self.must(self.x("owner", self.factory, {"add_native_token_decimals": {"denom": dn, "decimals": dc}}))
         # pairs
         self.pairs = []
         plan = pair_plan or self._default_plan(rng_)
@@ -388,6 +400,12 @@ class World:
         msg = {"send": {"contract": pair.addr, "amount": str(amount), "msg": b64({"withdraw_liquidity": {}})}}
         return {"kind": "withdraw", "actor": actor, "contract": pair.lp, "msg": msg, "funds": [],
                 "sem": {"pair": pair, "amount": amount}}
+
+    def op_withdraw_via(self, actor, pair, token, amount):
+        """the withdraw hook delivered to the pair by a cw20 that is NOT its LP token"""
+        msg = {"send": {"contract": pair.addr, "amount": str(amount), "msg": b64({"withdraw_liquidity": {}})}}
+        return {"kind": "withdraw_via_token", "actor": actor, "contract": token[1], "msg": msg, "funds": [],
+                "sem": {"pair": pair, "amount": amount, "token": token}}
 
     def route_ops_json(self, hops):
         return [{"halo_swap": {"offer_asset_info": ainfo(o), "ask_asset_info": ainfo(a)}} for o, a in hops]
